@@ -29,7 +29,7 @@ Theorem C06_reachable_wf : forall xw st, guarded_wiring xw -> reachable xw st ->
 Proof. exact reachable_wf. Qed.
 
 Theorem C06_wirings_guarded : guarded_wiring base_wiring /\ guarded_wiring ext_wiring.
-Proof. exact (conj base_wiring_guarded base_wiring_guarded). Qed.
+Proof. exact (conj base_wiring_guarded ext_wiring_guarded). Qed.
 
 (* ---- a chain of derivations never changes the originating factory ---- *)
 Theorem C06_chain_keeps_factory : forall xw, guarded_wiring xw -> forall ch st v st' r i,
